@@ -100,6 +100,21 @@ pub fn dispatch(env: &Env, run: &Run, replay_file: Option<&str>) -> i32 {
         println!("VIOLATION property={} replay={}", run.prop, path);
         return 1;
     }
+    {
+        // a library call that does not return within 10 s is a violation of the property under check
+        let prop = run.prop.clone();
+        crate::watch::start_monitor(std::time::Duration::from_secs(10), move |what, cps, secs| {
+            let dir = crate::engine::out_dir().join("replays").join(&prop);
+            let _ = std::fs::create_dir_all(&dir);
+            let p = dir.join("stuck.json");
+            let body = serde_json::json!({"property": prop, "kind": "does_not_return", "case": {"op": what, "strs": [cps], "nums": [], "extra": null},
+                "expected": "the call returns", "actual": format!("still inside the library after {} s", secs)});
+            let _ = std::fs::write(&p, serde_json::to_string_pretty(&body).unwrap());
+            println!("  violation[does_not_return] {} {:?}: a library call has not returned after {} s", what, cps, secs);
+            println!("VIOLATION property={} replay={}", prop, p.display());
+            std::process::exit(1);
+        });
+    }
     let (mut st, cov) = runf(env, run);
     for n in &env.notes {
         st.note(n.clone());
